@@ -166,7 +166,19 @@ func HarnessC15Open() {
 	if preload {
 		opts = append(opts, WithPreloadedData())
 	}
-	idx, err := OpenIndex(path, opts...)
+	// the index may also be opened from a database the caller opened itself: Close releases
+	// the file all the same
+	var idx *Index
+	var err error
+	if damage == 0 && verifBool("from-callers-database") {
+		db, derr := bbolt.Open(path, 0644, nil)
+		if derr != nil {
+			panic(derr)
+		}
+		idx, err = OpenIndexFromBoltDatabase(db, opts...)
+	} else {
+		idx, err = OpenIndex(path, opts...)
+	}
 	if damage == 7 || damage == 8 {
 		verifAssert(err != nil && idx == nil, "C15: opening a path that does not exist must fail")
 		verifAssert(verifFileKind(path) == 0 || verifFileKind(path) == 4, "C15: opening a path that does not exist must not create it")
